@@ -20,6 +20,7 @@ import (
 	"os"
 	"sort"
 	"strconv"
+	"strings"
 	"time"
 
 	"github.com/ohler55/ojg/alt"
@@ -53,7 +54,18 @@ func intAbs(i int64) abs {
 	if -(1<<30) <= i && i <= 1<<30 {
 		return abs{"t": "int", "v": i}
 	}
-	return abs{"t": "int", "s": strconv.FormatInt(i, 10)}
+	return top8Fact(abs{"t": "int", "s": strconv.FormatInt(i, 10)}, strconv.FormatInt(i, 10))
+}
+
+// top8Fact marks a number whose decimal text is one of 9223372036854775800..807 (optionally negative): a fact about the
+// text that the specification cannot compute (no string operations in TLA+) and needs for the locus of the known
+// oj.Parse defect (json.Number instead of int64 for the top eight int64 values, root cause recorded under C02).
+func top8Fact(m abs, text string) abs {
+	t := strings.TrimPrefix(text, "-")
+	if len(t) == 19 && strings.HasPrefix(t, "922337203685477580") {
+		m["top8"] = true
+	}
+	return m
 }
 
 func intOf(m abs) int64 {
@@ -162,9 +174,9 @@ func proj(v any) any {
 	case gen.String:
 		return abs{"t": "str", "v": string(t)}
 	case json.Number:
-		return abs{"t": "big", "v": string(t)}
+		return top8Fact(abs{"t": "big", "v": string(t)}, string(t))
 	case gen.Big:
-		return abs{"t": "big", "v": string(t)}
+		return top8Fact(abs{"t": "big", "v": string(t)}, string(t))
 	case []any:
 		a := make([]any, len(t))
 		for i, e := range t {
@@ -591,7 +603,7 @@ func (r *recorder) Null()            { r.cs = append(r.cs, mk("Value", aNull(), 
 func (r *recorder) Bool(v bool)      { r.cs = append(r.cs, mk("Value", abs{"t": "bool", "v": v}, r.k()...)) }
 func (r *recorder) Int(v int64)      { r.cs = append(r.cs, mk("Value", proj(v), r.k()...)) }
 func (r *recorder) Float(v float64)  { r.cs = append(r.cs, mk("Value", proj(v), r.k()...)) }
-func (r *recorder) Number(v string)  { r.cs = append(r.cs, mk("Value", abs{"t": "big", "v": v}, r.k()...)) }
+func (r *recorder) Number(v string)  { r.cs = append(r.cs, mk("Value", proj(json.Number(v)), r.k()...)) }
 func (r *recorder) String(v string)  { r.cs = append(r.cs, mk("Value", aStr(v), r.k()...)) }
 func (r *recorder) Key(v string)     { r.key = v }
 func (r *recorder) ObjectStart()     { r.cs = append(r.cs, mk("Object", nil, r.k()...)); r.inObj = append(r.inObj, true) }
